@@ -457,7 +457,8 @@ def gen(rng, tier):
     nstr = 12000 if quick else 200000
     for _ in range(nstr):
         t = rand_text(rng)
-        L.append("get " + snode(t))
+        # every fifth string node is held in the grown (separately allocated, negative `len`) representation
+        L.append("get " + ("G" if rng.random() < 0.2 else "") + snode(t))
         k = rng.random()
         if k < 0.25:
             L.append("libc strtod " + hexs(t))
